@@ -68,7 +68,8 @@ class ConformalElectionModel(BaseElectionModel.BaseElectionModel, ABC):
                 y,
                 taus=tau,
                 weights=weights,
-                lambda_=self.lambda_,
+                # the first attempt penalises coefficients relative to weights that sum to one
+                lambda_=self.lambda_ * np.sum(weights),
                 fit_intercept=self.add_intercept,
                 normalize_weights=False,
             )
